@@ -101,6 +101,18 @@ CHECKS = {
         "header spellings/security/explicit OPTIONS x cors on/off x handler nil/set; the installed CORSHandler's arguments compared with model and spec.",
    note="Trusted as C03; http.CanonicalHeaderKey modelled for ASCII token characters (tied by the cases).",
    ref="DESIGN.md section 4 (C17)"),
+ "C12": dict(
+   technique="Coq proof that every kind of map iteration hands on a schedule-independent value (uniqueness of the sorted permutation) + source translator regenerating the map-range inventory as a proof obligation + repeated-run hashing",
+   text="C12_site_invariant / C12_deterministic: modelling Go map iteration as an adversarial permutation, every kind of map range present in the "
+        "generator (keys collected then sorted; entries copied into maps that are later read sorted or by key; at-most-one-entry maps; error-text-only "
+        "loops; unreachable code) hands on the same value for every schedule, hence any downstream function of those values is deterministic. "
+        "C12_all_map_sites_modelled / C12_no_other_sources are REGENERATED obligations: a translator (go/packages+go/types) inventories every map "
+        "range (with a hash of the loop source) and every time/rand/env/ReadDir/goroutine use in /repo's non-test packages on each run and the "
+        "theorems (closed by computation) require the inventory to lie inside the reviewed table. Behaviour tie: map-fat spec, all fixture specs "
+        "and seeded corpus specs generated 8x in-process + 3x in fresh processes (40+10 thorough), one sha256 per (spec, options).",
+   note="Trusted: Coq kernel; the translator's completeness; the reviewed kind of each loop; text/template (sorted map keys) and goimports "
+        "determinism; the deadcode tool for the KDead entry. TEMPLATE_DEBUG (environment) is an input of the run, not a schedule.",
+   ref="DESIGN.md section 4 (C12)"),
  "C13": dict(
    technique="Coq proof (induction over the byte string) of go_eval(encode s)=s + exhaustive/differential check of encoder and Go-literal evaluator against the real generator and go/types",
    text="Theorem C13_embed: for every byte string s without NUL (unbounded length) the Go constant expression emitted by the model of "
